@@ -45,16 +45,18 @@ def run(ctx):
                       "r2.Rect": "3x3 grid: all 45 valid rectangles (9 empty representations), all pairs, 25 probes"}
     # ---- 2. lat-lng rectangles: seeded first operands x all second operands
     n_rc = 15 * 65 + 1
-    na = 20 if q else 100
+    na = 14 if q else 100
     consts = {"M": 4, "NL": 3, "ML": 2, "NR": 1, "Fams": '{"rc"}',
               "AIdxS1": set(), "AIdxRc": set(rnd.sample(range(1, n_rc + 1), na)) | {1, n_rc}, "BIdxRc": set(),
-              "RcMlK": _k([-2, -1, 0, 1, 2]), "RcMgK": _k([-4, -2, -1, 0, 1, 2, 4])}
+              "RcMlK": _k([-2, -1, 0, 1, 2] if not q else [-1, 0, 1, 2]),
+              "RcMgK": _k([-4, -2, -1, 0, 1, 2, 4] if not q else [-2, -1, 0, 1, 4])}
     r = ctx.tlc("Gen_Intervals", vlib.cfg(constants=consts, invariants=IV_INV), workers=12, timeout=1500, heap="8g")
     ctx.replay(_cases(r))
     # ---- 3. caps and chord angles
     radii = [-8, 0, 1, 4, 8, 12, 16, 20, 24, 28, 31, 32]
     all26 = set(range(1, 27))
-    ca = set(rnd.sample(range(1, 27), 5)) if q else all26
+    # (13, 14 = the two z-axis directions in TLC's enumeration order: one exact axis-aligned pair always present)
+    ca = (set(rnd.sample(range(1, 27), 3)) | {13, 14}) if q else all26
     consts = {"M": 4, "NL": 3, "ML": 2, "Fams": '{"cap", "chord"}', "CIdxA": ca, "CIdxB": all26,
               "EAK": _k(radii), "EBK": _k(radii if not q else [-8, 0, 4, 8, 16, 24, 31, 32])}
     r = ctx.tlc("Gen_Caps", vlib.cfg(constants=consts, invariants=CAP_INV), workers=12, timeout=1500, heap="8g")
